@@ -10,18 +10,18 @@ VERIF = os.path.dirname(os.path.dirname(os.path.abspath(__file__)))
 TEXT = {
     "C01": ("Contract proof (Verus) over the extracted path splitting, emulated walk (do_resolve/check_current), openat2 backend and Resolver dispatch: a complete lookup returns a handle with ghost lineage+witness for every path/tree, link budget and termination by loop measure, and on a static ghost tree the walk equals the kernel-walk spec function; the symlink stack used for partial lookups is proved against an abstract view and specification (U25).",
             "kernel axioms A1-A4, std/rustix models (A7), vx rewrite rules; errno classes beyond ENOENT/ENOTDIR/ELOOP not compared"),
-    "C02": ("Same contracts as C01 with every syscall result left arbitrary between calls (each syscall boundary is a preemption point): a handle leaves the resolver only with lineage+witness obtained after the last '..' step.",
+    "C02": ("Same contracts as C01 with every syscall result left arbitrary between calls (each syscall boundary is a preemption point): a handle leaves a resolver only with the ghost fact `witnessed` (procfs path check after the walk, or the kernel's own in-root lookup), never on the strength of walking down alone.",
             "relative to axioms A1-A3 (procfs witness); the kernel is not verified"),
     "C03": ("Every mutating *at wrapper has the precondition 'directory has ghost lineage, name is a single component'; Verus discharges it at every call site of root.rs / utils/dir.rs for all argument paths and all syscall results.",
-            "A1 (walk-down), A8 (readdir names), resolve() postcondition; kernel refuses '.'/'..' as final names of *at calls"),
+            "A1 (walk-down), A8 (readdir names), resolve() postcondition; kernel refuses '.'/'..' as final names of *at calls; known finding D14 (partial-lookup handle of the emulated backend is not verified against the root)"),
     "C04": ("Both backends are specified against the same kernel-walk spec function (emulated side proved, kernel side by axiom A4); one-shot open table, NUL handling and flag helpers as function contracts.",
             "only lookups/open table/NUL; errno, F_GETFL and resulting-tree equality are not expressible as contracts and are not claimed"),
     "C05": ("The syscall discipline is the set of preconditions of the wrappers in syscalls.rs (single component, dirfd-relative, O_NOFOLLOW/O_CLOEXEC/O_NOCTTY inserted, fixed RESOLVE_* masks); wrappers are proved to establish it towards rustix, callers are proved against it, and a closed-world scan enumerates every path-taking call site.",
             "A7 (rustix passes arguments through); syscalls inside std/rustix internals are listed as unverified"),
     "C06": ("Contracts on ProcfsHandle / procfs resolver / fd utilities: every descriptor returned carries ghost is_procfs and mount-id-checked facts established by the verify_* functions, which are themselves extracted and proved.",
-            "A5 (mount ids identify mounts); conditional on the kernel reporting mount ids"),
+            "A5 (mount ids identify mounts); conditional on the kernel reporting mount ids; known finding D16 (open_follow follows an ordinary symlink with a plain openat)"),
     "C07": ("Contracts on the procfs resolvers: '..' gives EXDEV, absolute link bodies ELOOP, O_NOFOLLOW forced by open(), creation flags refused before any syscall, one followed component in open_follow; on a static ghost tree the O_PATH procfs resolver is proved equal to a spec function of the kernel walk including the O_PATH/O_NOFOLLOW/O_DIRECTORY final-component table (U24).",
-            "live /proc equality of the two backends is not decided; U24 assumes no syscall faults (static_no_faults) and the flag sets ProcfsHandle uses"),
+            "live /proc equality of the two backends is not decided; U24 assumes no syscall faults (static_no_faults) and the flag sets ProcfsHandle uses; known finding D17 (magic-link with a relative-looking body walked as an ordinary symlink)"),
     "C08": ("Termination measure on the ProcfsHandle::open retry (at most one unmasked retry) proved by Verus (`decreases`).",
             "none beyond the prelude models"),
     "C09": ("Contracts on proc_subpath / reopen / open_follow: the path is thread-self/fd/<n> for every n >= 0, symlink handles give ELOOP, creation flags refused, O_NOFOLLOW stripped.",
